@@ -270,8 +270,9 @@ functions `place`, `format`; `ins` are the inputs of all the `doElision` calls o
     (`PlaceOK`), `format` only adds material that `sepWordREC` skips (`FormatOK`) and the leaves are fresh
     well-formed terminals, the realized token list is settled -/
 def tree_settled : Prop :=
-  ∀ (place format : Nat → List Tok → List Tok) (t : Tree) (out : List Tok) (ins lvs : List (List Tok)),
-    PlaceOK place → FormatOK format → Real place format t out ins lvs → (∀ ts ∈ lvs, InvOut ts) →
+  ∀ (place format : Nat → List Tok → List Tok) (t : Tree) (out : List Tok) (ins lvs : List (List Tok))
+    (cats : List (Nat × List Tok)),
+    PlaceOK place → FormatOK format → Real place format t out ins lvs cats → (∀ ts ∈ lvs, InvOut ts) →
     Settled .fr out
 
 /-- a flat `PP(P("de").cap(True), D("le"), N("chat"))`: one node, three fresh leaves -/
@@ -281,11 +282,11 @@ theorem tree_settled_refuted : ¬ tree_settled := by
   have hall : RealAll idf idf [.leaf [tk "De" "P"], .leaf [tk "le" "D"], .leaf [tk "chat"]]
       ([tk "De" "P"] ++ ([tk "le" "D"] ++ ([tk "chat"] ++ [])))
       ([] ++ ([] ++ ([] ++ [])))
-      ([[tk "De" "P"]] ++ ([[tk "le" "D"]] ++ ([[tk "chat"]] ++ []))) :=
-    .cons _ _ _ _ _ _ _ _ (.leaf _) (.cons _ _ _ _ _ _ _ _ (.leaf _) (.cons _ _ _ _ _ _ _ _ (.leaf _) .nil))
+      ([[tk "De" "P"]] ++ ([[tk "le" "D"]] ++ ([[tk "chat"]] ++ []))) ([] ++ ([] ++ ([] ++ []))) :=
+    .cons _ _ _ _ _ _ _ _ _ _ (.leaf _) (.cons _ _ _ _ _ _ _ _ _ _ (.leaf _) (.cons _ _ _ _ _ _ _ _ _ _ (.leaf _) .nil))
   have hreal := Real.node (place := idf) (format := idf) 0 _ _
-    [tk "De" "P", tk "le" "D", tk "chat"] _ _ hall (by decide)
-  have := h idf idf _ _ _ _ placeOK_id formatOK_id hreal (by
+    [tk "De" "P", tk "le" "D", tk "chat"] _ _ _ hall (by decide)
+  have := h idf idf _ _ _ _ _ placeOK_id formatOK_id hreal (by
     intro ts hts
     simp only [List.append_nil, List.cons_append, List.nil_append, List.mem_cons, List.not_mem_nil, or_false] at hts
     rcases hts with rfl | rfl | rfl <;> exact invOut_single _ (by decide) (by decide))
@@ -293,27 +294,29 @@ theorem tree_settled_refuted : ¬ tree_settled := by
   decide
 
 theorem tree_settled_partial :
-    ∀ (place format : Nat → List Tok → List Tok) (t : Tree) (out : List Tok) (ins lvs : List (List Tok)),
-      PlaceOK place → FormatOK format → Real place format t out ins lvs → (∀ ts ∈ lvs, InvOut ts) →
+    ∀ (place format : Nat → List Tok → List Tok) (t : Tree) (out : List Tok) (ins lvs : List (List Tok))
+      (cats : List (Nat × List Tok)),
+      PlaceOK place → FormatOK format → Real place format t out ins lvs cats → (∀ ts ∈ lvs, InvOut ts) →
       (∀ inp ∈ ins, NodeTame inp) → Settled .fr out := by
-  intro place format t out ins lvs hp hf hr hl ht
-  exact (fold_inv place format hp hf t out ins lvs hr hl ht).2.1
+  intro place format t out ins lvs cats hp hf hr hl ht
+  exact (fold_inv place format hp hf t out ins lvs cats hr hl ht).2.1
 
 /-- non-vacuity: `PP(P("de"), NP(D("le"), N("arbre")))` — the article is elided in the inner node, the outer node
     sees `de l' arbre` (an elided form in its input, licensed: `BwdOK`) and leaves it -/
-example : ∃ out ins lvs,
+example : ∃ out ins lvs cats,
     Real (fun _ l => l) (fun _ l => l)
-      (.node 1 [.leaf [tk "de" "P"], .node 0 [.leaf [tk "le" "D"], .leaf [tk "arbre"]]]) out ins lvs ∧
+      (.node 1 [.leaf [tk "de" "P"], .node 0 [.leaf [tk "le" "D"], .leaf [tk "arbre"]]]) out ins lvs cats ∧
     (∀ inp ∈ ins, NodeTame inp) ∧ (∀ ts ∈ lvs, InvOut ts) ∧
     out = [tk "de" "P", tk "l'" "D", tk "arbre"] := by
   let idf : Nat → List Tok → List Tok := fun _ l => l
   have inner : Real idf idf (.node 0 [.leaf [tk "le" "D"], .leaf [tk "arbre"]]) [tk "l'" "D", tk "arbre"]
-      (([tk "le" "D"] ++ ([tk "arbre"] ++ [])) :: ([] ++ ([] ++ []))) ([[tk "le" "D"]] ++ ([[tk "arbre"]] ++ [])) :=
-    Real.node (place := idf) (format := idf) 0 _ _ [tk "l'" "D", tk "arbre"] _ _
-      (.cons _ _ _ _ _ _ _ _ (.leaf _) (.cons _ _ _ _ _ _ _ _ (.leaf _) .nil)) (by decide)
-  have outer := Real.node (place := idf) (format := idf) 1 _ _ [tk "de" "P", tk "l'" "D", tk "arbre"] _ _
-    (.cons _ _ _ _ _ _ _ _ (.leaf [tk "de" "P"]) (.cons _ _ _ _ _ _ _ _ inner .nil)) (by decide)
-  refine ⟨_, _, _, outer, ?_, ?_, rfl⟩
+      (([tk "le" "D"] ++ ([tk "arbre"] ++ [])) :: ([] ++ ([] ++ []))) ([[tk "le" "D"]] ++ ([[tk "arbre"]] ++ []))
+      ((0, [tk "le" "D"] ++ ([tk "arbre"] ++ [])) :: ([] ++ ([] ++ []))) :=
+    Real.node (place := idf) (format := idf) 0 _ _ [tk "l'" "D", tk "arbre"] _ _ _
+      (.cons _ _ _ _ _ _ _ _ _ _ (.leaf _) (.cons _ _ _ _ _ _ _ _ _ _ (.leaf _) .nil)) (by decide)
+  have outer := Real.node (place := idf) (format := idf) 1 _ _ [tk "de" "P", tk "l'" "D", tk "arbre"] _ _ _
+    (.cons _ _ _ _ _ _ _ _ _ _ (.leaf [tk "de" "P"]) (.cons _ _ _ _ _ _ _ _ _ _ inner .nil)) (by decide)
+  refine ⟨_, _, _, _, outer, ?_, ?_, rfl⟩
   · intro inp hi
     simp only [List.append_nil, List.cons_append, List.nil_append, List.mem_cons, List.not_mem_nil, or_false] at hi
     rcases hi with rfl | rfl <;> (unfold NodeTame; decide)
